@@ -558,6 +558,63 @@ fn run(v: &Value) -> Result<String, String> {
             }
             Ok(format!("{n} tag subsets x 4 entry points held"))
         }
+        "async_client_timeout_then_call" => {
+            // C05 scenario for the async client: a call with a per-call timeout and a large payload to a peer
+            // that stalls past the timeout and then drains; then a second call on the same client. The bytes
+            // the peer receives must be whole frames: an interrupted frame is never followed by another one.
+            use std::io::Read as _;
+            use std::time::Duration;
+            let big = v.get("big_bytes").and_then(|x| x.as_u64()).unwrap_or(32 << 20) as usize;
+            let listener = std::net::TcpListener::bind("127.0.0.1:0").unwrap();
+            let addr = listener.local_addr().unwrap();
+            let peer = std::thread::spawn(move || {
+                let (mut s, _) = listener.accept().unwrap();
+                std::thread::sleep(Duration::from_millis(700)); // stalled peer
+                s.set_read_timeout(Some(Duration::from_millis(1200))).unwrap();
+                let mut all = Vec::new();
+                let mut buf = vec![0u8; 1 << 16];
+                loop {
+                    match s.read(&mut buf) {
+                        Ok(0) => break,
+                        Ok(n) => all.extend_from_slice(&buf[..n]),
+                        Err(_) => break,
+                    }
+                }
+                all
+            });
+            let rt = tokio::runtime::Builder::new_multi_thread().worker_threads(2).enable_all().build().unwrap();
+            let (first_s, second_s) = rt.block_on(async {
+                let client = repe::AsyncClient::connect(addr).await.unwrap();
+                let payload = vec![0x5Au8; big];
+                let first = client.call_with_formats_and_timeout("/big", 1, Some(&payload[..]), 0u16, Duration::from_millis(100)).await;
+                let first_s = match &first { Ok(_) => "Ok".to_string(), Err(e) => format!("Err({e})") };
+                tokio::time::sleep(Duration::from_millis(900)).await;
+                let second = client.notify_with_formats("/small", 1, Some(&b"hi"[..]), 0u16).await;
+                let second_s = match &second { Ok(_) => "Ok".to_string(), Err(e) => format!("Err({e})") };
+                tokio::time::sleep(Duration::from_millis(200)).await;
+                drop(client);
+                (first_s, second_s)
+            });
+            drop(rt);
+            let bytes = peer.join().unwrap();
+            let mut off = 0usize;
+            let mut frames = 0;
+            let mut torn = false;
+            while off + 48 <= bytes.len() {
+                match repe::Header::decode(&bytes[off..off + 48]) {
+                    Ok(h) => {
+                        if off + h.length as usize > bytes.len() { torn = true; break; }
+                        off += h.length as usize;
+                        frames += 1;
+                    }
+                    Err(e) => return Err(format!("peer stream desynchronised at byte {off} of {} after {frames} whole frames ({e}); first call: {first_s}; second: {second_s}", bytes.len())),
+                }
+            }
+            if torn && bytes[off..].windows(6).any(|w| w == b"/small") {
+                return Err(format!("a frame was written after an interrupted (torn) frame: first call {first_s}, second {second_s}; peer received {} bytes, {frames} whole frames, then a torn frame that swallows the second request", bytes.len()));
+            }
+            Ok(format!("first={first_s} second={second_s} received={} bytes, {frames} whole frames, torn_tail={torn}", bytes.len()))
+        }
         other => panic!("unknown replay entry `{other}`"),
     }
 }
